@@ -22,7 +22,7 @@ type C01 struct {
 	ops     []string
 }
 
-func NewC01() *C01 { return &C01{st: NewStats("C01"), donated: map[string]math.Int{}} }
+func NewC01() *C01           { return &C01{st: NewStats("C01"), donated: map[string]math.Int{}} }
 func (m *C01) Stats() *Stats { return m.st }
 
 func (m *C01) trackDonations(w *chain.World, blk *chain.BlockRecord, poolAddrs map[string]bool) {
@@ -105,7 +105,7 @@ type C02 struct {
 	lastSupply map[string]math.Int
 }
 
-func NewC02() *C02 { return &C02{st: NewStats("C02"), lastSupply: map[string]math.Int{}} }
+func NewC02() *C02           { return &C02{st: NewStats("C02"), lastSupply: map[string]math.Int{}} }
 func (m *C02) Stats() *Stats { return m.st }
 
 var shareMintBurnMsgs = map[string]bool{
@@ -221,7 +221,7 @@ func (m *C02) AfterCommit(w *chain.World, blk *chain.BlockRecord) {
 
 type C06 struct{ st *Stats }
 
-func NewC06() *C06          { return &C06{st: NewStats("C06")} }
+func NewC06() *C06           { return &C06{st: NewStats("C06")} }
 func (m *C06) Stats() *Stats { return m.st }
 
 func (m *C06) eval(w *chain.World, ctx sdk.Context, where string, ops []string, txi int) {
@@ -268,7 +268,7 @@ type C08 struct {
 	prev map[string]string // position key -> address (positions alive at the previous commit)
 }
 
-func NewC08() *C08          { return &C08{st: NewStats("C08"), prev: map[string]string{}} }
+func NewC08() *C08           { return &C08{st: NewStats("C08"), prev: map[string]string{}} }
 func (m *C08) Stats() *Stats { return m.st }
 
 func (m *C08) AfterCommit(w *chain.World, blk *chain.BlockRecord) {
@@ -347,7 +347,7 @@ func (m *C08) AfterCommit(w *chain.World, blk *chain.BlockRecord) {
 
 type C09 struct{ st *Stats }
 
-func NewC09() *C09          { return &C09{st: NewStats("C09")} }
+func NewC09() *C09           { return &C09{st: NewStats("C09")} }
 func (m *C09) Stats() *Stats { return m.st }
 
 func (m *C09) AfterCommit(w *chain.World, blk *chain.BlockRecord) {
@@ -429,7 +429,7 @@ type C11 struct {
 	lastAmm  []string
 }
 
-func NewC11() *C11          { return &C11{st: NewStats("C11")} }
+func NewC11() *C11           { return &C11{st: NewStats("C11")} }
 func (m *C11) Stats() *Stats { return m.st }
 
 func (m *C11) AfterCommit(w *chain.World, blk *chain.BlockRecord) {
